@@ -183,8 +183,13 @@ SO3TangentBase<_Derived>::ljac() const
 
   const Scalar theta = sqrt(theta_sq); // rotation angle
 
+  // (1-cos)/theta^2 written as 2 sin^2(theta/2)/theta^2: nothing cancels, so
+  // the coefficient and its derivative (autodiff scalars) stay accurate
+  // just above the small-angle threshold
+  const Scalar sin_half_theta = sin(theta / Scalar(2));
+
   return Jacobian::Identity() +
-    (Scalar(1) - cos(theta)) / theta_sq * W +
+    (Scalar(2) * sin_half_theta * sin_half_theta) / theta_sq * W +
     (theta - sin(theta)) / (theta_sq * theta) * W * W;
 }
 
